@@ -409,6 +409,15 @@ def main():
     M('word-vs-bytes', "const int[] a = [258, 0];\nconst byte[] b = [2, 1, 0, 0];\nconst int[] c = [513];\nempty @is_you(int i) { sleep(a[i]); write(b[i]); sleep(c[0]); sleep(a[0]); }\n")
     M('bools-vs-bytes', "const bool[] f = [true, false, true, false, false, false, false, false, true];\nconst byte[] b = [5, 1];\nconst byte[] g = [5];\nempty @is_you(int i) { sleep(f[i] is int); write(b[i]); write(g); sleep(f[8] is int); }\n")
     M('mutable-globals', "int[] a = [4, 5, 6];\nconst int[] c = [4, 5, 6];\nint[] a2 = [4, 5, 6];\nempty @is_you(int i) { a[i] = 9; sleep(a[0] + a[1] + a[2]); sleep(c[i]); sleep(a2[i]); }\n")
+    M('param-storage-bytes', "const byte[] gc = ['g', 'c', '!'];\nempty show(const byte[] a, int i) { write(a[i]); write(a); sleep(a.length); }\n"
+      "empty @is_you(int i) { byte[] st = ['s', 't', 'k']; show(st, i); show(gc, i); show(\"str\", i); show(['l', 'i', 't'], i); const byte[] lc = ['l', 'c', '.']; show(lc, i); st[0] = 'S'; show(st, i); }\n")
+    M('param-storage-ints', "const int[] gc = [7, 8, 9];\nint[] gm = [4, 5, 6];\nint pick(const int[] a, int i) { return a[i] + a.length; }\n"
+      "empty @is_you(int i) { int[] st = [1, 2, 3]; sleep(pick(st, i)); sleep(pick(gc, i)); sleep(pick([10, 20, 30], i)); sleep(pick(gm, i)); gm[1] = 50; sleep(pick(gm, i)); sleep(pick(st, i)); }\n")
+    M('param-storage-bools', "const bool[] gc = [true, false, true, true, false, false, true, false, true];\nint cnt(const bool[] a) { int n = 0; for (int i = 0; i < a.length; i += 1) { if (a[i]) { n += 1; } } return n; }\n"
+      "empty @is_you(int x) { bool[] st = [x > 0, true, false]; sleep(cnt(st)); sleep(cnt(gc)); sleep(cnt([true, true])); sleep(cnt(st)); }\n")
+    M('param-storage-strings', "const string[] gc = [\"ab\", \"c\"];\nempty all(const string[] a) { for (int i = 0; i < a.length; i += 1) { write(a[i]); write(','); } }\n"
+      "empty @is_you(int x) { string[] st = [\"x\", \"yz\"]; all(st); all(gc); all([\"lit\"]); st[0] = \"X\"; all(st); }\n")
+    M('param-storage-entry-args', "empty show(const byte[] a) { write(a); }\nempty @is_you(const byte[] xs) { byte[] st = ['s']; show(st); show(xs); show(\"k\"); }\n", xs=2)
     mtasks = [case_to_task(c.with_(word=W, stack=96)) for c in multi for W in ([2, 4] if quick else [2, 3, 4, 8])]
     run_tasks(rep, mtasks, worker=check_case, limit=600, sample_every=3)
     # (C) CrossHair on the escaping function
